@@ -655,6 +655,13 @@ def check_batch(case, ctx):
         n, d = n.astype(np.int64), d.astype(np.int64)
         if n0 == 1.0:
             n0 = 1
+    if num == 'f32' and f > FMAX:
+        # as in the energy clause: a float32 stack is evaluated with n0 / n_j, sines and cosines in single precision (relative 6e-8).  Within
+        # 1e-5 of grazing incidence / of the critical angle cos^2(theta) in a layer is of that size, so a layer whose index equals the ambient
+        # index to float32 rounding is beyond its critical angle for one of the two evaluations and not for the other (|r| ~ 1 against
+        # r ~ 1e-8): outside what single precision resolves, not a difference between batch and loop.  Float32 stacks go up to f = 0.995
+        # (found by a background sweep, seed 21; replays/regression/C17-batch-float32-grazing-equal-index.json)
+        f = FMAX
     th0 = _theta0(n0, float(n.min()), f)
     aoi = math.degrees(th0)
     cplx = case['absorbing'] and L > 1 and num == 'float'
